@@ -235,6 +235,9 @@ def run_history(root, srv, part, rng, tier):
             part.violation("daemon-crash/" + (">".join(frames[:2]) or "rc%s" % rc),
                            {"input": sc.text(), "summary": (head or err[-300:] or "no END marker")[:300], "log": err[-3000:]})
             return
+        if sched.harness_overflow(events):
+            part.inconclusive.append({"why": "history outgrew the harness's process table"})
+            return
         fails = []
         stats = sched.check_schedule(events, incs, t_end, lambda k, d: fails.append((k, d)))
         # retirement: tasks whose occurrences are all served and whose children are gone must be gone too
